@@ -117,9 +117,12 @@ def compile_monitor(name, srcs, cfg, extra_link=(), std="gnu++17"):
     common = glob.glob(os.path.join(MON, "common", "*"))
     srcpaths = [os.path.join(MON, s) for s, _ in srcs]
     # directory-local headers next to the sources
+    # (only those sharing the monitor's cNN prefix, or living in the monitor's own sub-directory)
     local = []
     for sp in srcpaths:
-        local += glob.glob(os.path.join(os.path.dirname(sp), "*.h")) + glob.glob(os.path.join(os.path.dirname(sp), "*.inc"))
+        d = os.path.dirname(sp)
+        pref = os.path.basename(sp)[:3] if d == MON else ""
+        local += glob.glob(os.path.join(d, pref + "*.h")) + glob.glob(os.path.join(d, pref + "*.inc"))
     stamp = sha_files(repo_core_files() + common + srcpaths + local + [os.path.join(core["dir"], "config", "ImathConfig.h")],
                       extra=json.dumps([core["flags"], srcs, list(extra_link), std, CXX]))
     stampf = binp + ".stamp"
